@@ -316,8 +316,8 @@ def _relative(rng, toks, idx, known_ops=()):
         # both operands identical (the driver then also runs `&x op &x` with both references to one object)
         i2 = rng.choice([t for t in idx if t != i])
         v[i2] = toks[i]
-        if len(v) > 1 and v[1] in _FORMS:
-            v[1] = "*"
+        if len(v) > 1 and v[1] in _FORMS and ("*:" + toks[0]) in known_ops:
+            v[1] = "*"                                            # only where the property itself uses the all-forms request
         return v
     else:
         return list(toks)                                        # plain repeat
@@ -340,6 +340,7 @@ def add_locality(reqs, rng, p=0.03):
     out = []
     cur = O.DEFAULT_MODE
     known_ops = set(r.split(" ", 1)[0] for r in reqs)          # sibling entry points only if the property uses them
+    known_ops |= set("*:" + r.split(" ", 1)[0] for r in reqs if r.split(" ")[1:2] == ["*"])
     for r in reqs:
         out.append(r)
         if r.startswith("mode "):
